@@ -377,6 +377,191 @@ Section WithOracle.
 
   End Partial.
 
+  (* ---- the form of the delivered argument (object / tombstone by value) ---- *)
+
+  Lemma tombstone_same cfg c t id key o :
+    handle_d jq cfg c t id (Tombstone key o) = handle_d jq cfg c t id (Plain o).
+  Proof. reflexivity. Qed.
+
+  Lemma run_d_changes cfg h : forall c, run_d jq cfg c h = run jq cfg c (map change_of h).
+  Proof.
+    induction h as [|[[t id] d] r IH]; intros c; [reflexivity|].
+    cbn [run_d map change_of run]. unfold handle_d.
+    destruct (handle jq cfg c t id (unwrap d)) as [c' ev]. f_equal. apply IH.
+  Qed.
+
+  Lemma final_cache_d_changes cfg h : forall c,
+    final_cache_d jq cfg c h = final_cache jq cfg c (map change_of h).
+  Proof.
+    induction h as [|[[t id] d] r IH]; intros c; [reflexivity|].
+    unfold final_cache_d, final_cache. cbn [fold_left map change_of].
+    apply IH.
+  Qed.
+
+  Definition model_obs_d (cfg : config) (h : list dstep) : list obs := map to_obs (run_d jq cfg [] h).
+
+  Lemma model_obs_d_changes cfg h : model_obs_d cfg h = model_obs cfg (map change_of h).
+  Proof. unfold model_obs_d, model_obs. rewrite run_d_changes. reflexivity. Qed.
+
+  (* a Deleted delivery, in either form, on whose object the filter does not fail: fires iff
+     Deleted is listed, carries the delivered object, removes exactly its id from the cache *)
+  Lemma deleted_any_form cfg c id d e :
+    apply_filter jq cfg (unwrap d) = Some e ->
+    snd (handle_d jq cfg c Deleted id d)
+      = (if should_fire cfg Deleted then Some (mkEvent Deleted id e) else None) /\
+    e_obj e = unwrap d /\
+    forall id', c_get id' (fst (handle_d jq cfg c Deleted id d))
+                = if N.eqb id' id then None else c_get id' c.
+  Proof.
+    intros Ha. unfold handle_d, handle. rewrite Ha. cbn [fst snd].
+    split; [reflexivity|]. split; [apply (apply_filter_obj _ _ _ Ha)|].
+    intros id'. apply c_get_del.
+  Qed.
+
+  (* the property over histories of deliveries: the specification speaks of the changes *)
+  Lemma partial_d types filter h :
+    oracle_canonical (map change_of h) ->
+    T_F8 jq filter (map change_of h) = false -> T_F16 jq filter (map change_of h) = false ->
+    P jq types filter (map change_of h) (model_obs_d (mkConfig types filter) h) = true.
+  Proof. intros Hcan H8 H16. rewrite model_obs_d_changes. apply partial; assumption. Qed.
+
+  (* ---- a relist brings the snapshot to the listed state ---- *)
+
+  Lemma latest_app id a : forall s b, latest id s (a ++ b) = latest id (latest id s a) b.
+  Proof.
+    induction a as [|[[t id'] o] r IH]; intros s b; [reflexivity|].
+    cbn [app latest]. apply IH.
+  Qed.
+
+  Section Relist.
+    Variable quiet : N -> bool.
+    Variable store listed : list (N * json).
+    Variable id : N.
+
+    Let live (l : list (N * json)) : list step := map change_of (flat_map (relist_live quiet store) l).
+    Let gone (l : list (N * json)) : list step := map change_of (flat_map (relist_gone listed) l).
+
+    Lemma a_get_notin l : ~ In id (map fst l) -> a_get id l = None.
+    Proof.
+      induction l as [|[k o] r IH]; intros Hn; [reflexivity|].
+      cbn [a_get]. destruct (N.eqb_spec id k) as [E|NE].
+      - exfalso. apply Hn. left. cbn [fst]. congruence.
+      - apply IH. intros Hin. apply Hn. right. exact Hin.
+    Qed.
+
+    Lemma live_cons k o r : live ((k, o) :: r) = map change_of (relist_live quiet store (k, o)) ++ live r.
+    Proof. unfold live. cbn [flat_map]. apply map_app. Qed.
+
+    Lemma gone_cons k o r : gone ((k, o) :: r) = map change_of (relist_gone listed (k, o)) ++ gone r.
+    Proof. unfold gone. cbn [flat_map]. apply map_app. Qed.
+
+    Lemma latest_live_head_other k o s : N.eqb id k = false ->
+      latest id s (map change_of (relist_live quiet store (k, o))) = s.
+    Proof.
+      intros NE. unfold relist_live. cbn [fst snd].
+      destruct (quiet k && unchanged_in store (k, o)); [reflexivity|].
+      cbn [map change_of unwrap latest]. rewrite NE. reflexivity.
+    Qed.
+
+    Lemma latest_live_other l : forall s, a_get id l = None -> latest id s (live l) = s.
+    Proof.
+      induction l as [|[k o] r IH]; intros s Hn; [reflexivity|].
+      cbn [a_get] in Hn. destruct (N.eqb id k) eqn:NE; [discriminate|].
+      rewrite live_cons, latest_app, (latest_live_head_other k o s NE). apply IH. exact Hn.
+    Qed.
+
+    Lemma latest_live_hit l : forall s o,
+      NoDup (map fst l) -> a_get id l = Some o ->
+      (quiet id && unchanged_in store (id, o) = true -> s = Some o) ->
+      latest id s (live l) = Some o.
+    Proof.
+      induction l as [|[k o'] r IH]; intros s o Hnd Hg Hq; [discriminate|].
+      cbn [map fst] in Hnd. inversion Hnd as [|x xs Hnotin Hnd']; subst x xs.
+      cbn [a_get] in Hg. rewrite live_cons, latest_app.
+      destruct (N.eqb_spec id k) as [E|NE].
+      - subst k. inversion Hg; subst o'.
+        assert (Hr : a_get id r = None) by (apply a_get_notin; exact Hnotin).
+        rewrite (latest_live_other r _ Hr).
+        unfold relist_live. cbn [fst snd].
+        destruct (quiet id && unchanged_in store (id, o)) eqn:Eq.
+        + cbn [map latest]. apply Hq. reflexivity.
+        + cbn [map change_of unwrap latest]. rewrite N.eqb_refl.
+          destruct (a_mem id store); reflexivity.
+      - assert (NE' : N.eqb id k = false) by (apply N.eqb_neq; exact NE).
+        rewrite (latest_live_head_other k o' s NE'). apply IH; assumption.
+    Qed.
+
+    Lemma latest_gone_listed l : forall s, a_mem id listed = true -> latest id s (gone l) = s.
+    Proof.
+      induction l as [|[k o] r IH]; intros s Hm; [reflexivity|].
+      rewrite gone_cons, latest_app. rewrite <- (IH s Hm) at 2. f_equal.
+      unfold relist_gone. cbn [fst snd].
+      destruct (a_mem k listed) eqn:Ek; [reflexivity|].
+      cbn [map change_of unwrap latest].
+      destruct (N.eqb_spec id k) as [E|NE]; [|reflexivity].
+      subst k. congruence.
+    Qed.
+
+    Lemma latest_gone_unlisted l : forall s, a_mem id listed = false ->
+      latest id s (gone l) = if a_mem id l then None else s.
+    Proof.
+      induction l as [|[k o] r IH]; intros s Hm; [reflexivity|].
+      rewrite gone_cons, latest_app, (IH _ Hm).
+      unfold a_mem at 2. cbn [a_get]. fold (a_mem id r).
+      unfold relist_gone. cbn [fst snd].
+      destruct (N.eqb_spec id k) as [E|NE].
+      - subst k. rewrite Hm. cbn [map change_of unwrap latest]. rewrite N.eqb_refl.
+        destruct (a_mem id r); reflexivity.
+      - destruct (a_mem k listed); [reflexivity|].
+        cbn [map change_of unwrap latest].
+        destruct (N.eqb_spec id k) as [E|_]; [contradiction|]. reflexivity.
+    Qed.
+
+    Lemma latest_relist :
+      NoDup (map fst listed) ->
+      latest id (a_get id store) (map change_of (relist quiet store listed)) = a_get id listed.
+    Proof.
+      intros Hnd. unfold relist. rewrite map_app, latest_app.
+      fold (live listed). fold (gone store).
+      destruct (a_get id listed) as [o|] eqn:Eg.
+      - rewrite (latest_live_hit listed (a_get id store) o Hnd Eg).
+        + apply latest_gone_listed. unfold a_mem. rewrite Eg. reflexivity.
+        + intros Hq. apply andb_true_iff in Hq. destruct Hq as [_ Hu].
+          unfold unchanged_in in Hu. cbn [fst snd] in Hu.
+          destruct (a_get id store) as [o'|]; [|discriminate].
+          apply json_eqb_eq in Hu. congruence.
+      - rewrite (latest_live_other listed _ Eg).
+        rewrite latest_gone_unlisted by (unfold a_mem; rewrite Eg; reflexivity).
+        unfold a_mem. destruct (a_get id store); reflexivity.
+    Qed.
+
+  End Relist.
+
+  (* the informer's cache shows what the shared informer's store holds *)
+  Definition store_agrees (c : cache) (store : list (N * json)) : Prop :=
+    forall id, option_map e_obj (c_get id c) = a_get id store.
+
+  Lemma relist_snapshot cfg quiet c store listed :
+    store_agrees c store -> NoDup (map fst listed) ->
+    never_fails cfg (map change_of (relist quiet store listed)) ->
+    store_agrees (final_cache_d jq cfg c (relist quiet store listed)) listed.
+  Proof.
+    intros Hag Hnd Hnf id.
+    rewrite final_cache_d_changes, (cache_latest_from cfg id _ c Hnf), Hag.
+    apply latest_relist. exact Hnd.
+  Qed.
+
+  (* an object that disappeared during the outage: its tombstone fires Deleted iff listed *)
+  Lemma relist_gone_is_deleted (store listed : list (N * json)) s :
+    In s (flat_map (relist_gone listed) store) ->
+    exists id o, s = (Deleted, id, Tombstone id o) /\ In (id, o) store /\ a_mem id listed = false.
+  Proof.
+    intros Hin. apply in_flat_map in Hin. destruct Hin as ([k o] & Hs & Hin).
+    unfold relist_gone in Hin. cbn [fst snd] in Hin.
+    destruct (a_mem k listed) eqn:Em; [destruct Hin|].
+    destruct Hin as [E|[]]. exists k, o. split; [symmetry; exact E|]. split; [exact Hs|exact Em].
+  Qed.
+
 End WithOracle.
 
 (* ---- the witnesses ---- *)
@@ -429,4 +614,24 @@ Lemma refuted_F16 :
 Proof.
   exists jq_foo, all3, true, h_F16.
   split; [exact canonical_F16|]. repeat split; vm_compute; reflexivity.
+Qed.
+
+(* the same witnesses as histories of deliveries *)
+Definition plain (s : step) : dstep := match s with (t, id, o) => (t, id, Plain o) end.
+
+Lemma refuted_d :
+  (exists jq types filter h,
+    oracle_canonical jq (map change_of h) /\ T_F8 jq filter (map change_of h) = true /\
+    T_F16 jq filter (map change_of h) = false /\
+    P jq types filter (map change_of h) (model_obs_d jq (mkConfig types filter) h) = false) /\
+  (exists jq types filter h,
+    oracle_canonical jq (map change_of h) /\ T_F16 jq filter (map change_of h) = true /\
+    T_F8 jq filter (map change_of h) = false /\
+    P jq types filter (map change_of h) (model_obs_d jq (mkConfig types filter) h) = false).
+Proof.
+  split.
+  - exists jq_replicas, all3, true, (map plain h_F8).
+    split; [exact canonical_F8|]. repeat split; vm_compute; reflexivity.
+  - exists jq_foo, all3, true, (map plain h_F16).
+    split; [exact canonical_F16|]. repeat split; vm_compute; reflexivity.
 Qed.
